@@ -725,9 +725,10 @@ class CParser:
             return [func]
 
         decl_dict: "_DeclInfo" = dict(decl=decl, init=None, bitsize=None)
+        self._declare_declarator_name(spec, decl)
         if self._accept("EQUALS"):
             decl_dict["init"] = self._parse_initializer()
-        decls = self._parse_init_declarator_list(first=decl_dict)
+        decls = self._parse_init_declarator_list(first=decl_dict, spec=spec)
         decls = self._build_declarations(spec=spec, decls=decls, typedef_namespace=True)
         self._expect("SEMI")
         return decls
@@ -759,10 +760,10 @@ class CParser:
         decl_infos: Optional[List["_DeclInfo"]] = None
         if saw_type:
             if self._starts_declarator():
-                decl_infos = self._parse_init_declarator_list()
+                decl_infos = self._parse_init_declarator_list(spec=spec)
         else:
             if self._starts_declarator(id_only=True):
-                decl_infos = self._parse_init_declarator_list(id_only=True)
+                decl_infos = self._parse_init_declarator_list(id_only=True, spec=spec)
 
         decls: List[c_ast.Node]
         if decl_infos is None:
@@ -1060,21 +1061,42 @@ class CParser:
 
     # BNF: init_declarator_list : init_declarator (',' init_declarator)*
     def _parse_init_declarator_list(
-        self, first: Optional["_DeclInfo"] = None, id_only: bool = False
+        self,
+        first: Optional["_DeclInfo"] = None,
+        id_only: bool = False,
+        spec: Optional["_DeclSpec"] = None,
     ) -> List["_DeclInfo"]:
         decls = (
             [first]
             if first is not None
-            else [self._parse_init_declarator(id_only=id_only)]
+            else [self._parse_init_declarator(id_only=id_only, spec=spec)]
         )
 
         while self._accept("COMMA"):
-            decls.append(self._parse_init_declarator(id_only=id_only))
+            decls.append(self._parse_init_declarator(id_only=id_only, spec=spec))
         return decls
 
+    def _declare_declarator_name(self, spec: "_DeclSpec", decl: c_ast.Node) -> None:
+        """The scope of a declared identifier begins just after its declarator:
+        it is already visible in its own initializer and in the declarators
+        that follow ("TT TT = sizeof(TT);", "int a = sizeof(TT), TT, b = TT;").
+        """
+        typ: Any = decl
+        while not isinstance(typ, c_ast.TypeDecl):
+            typ = typ.type
+        if typ.declname is not None:
+            if "typedef" in spec["storage"]:
+                self._add_typedef_name(typ.declname, typ.coord)
+            else:
+                self._add_identifier(typ.declname, typ.coord)
+
     # BNF: init_declarator : declarator ('=' initializer)?
-    def _parse_init_declarator(self, id_only: bool = False) -> "_DeclInfo":
+    def _parse_init_declarator(
+        self, id_only: bool = False, spec: Optional["_DeclSpec"] = None
+    ) -> "_DeclInfo":
         decl = self._parse_id_declarator() if id_only else self._parse_declarator()
+        if spec is not None:
+            self._declare_declarator_name(spec, decl)
         init = None
         if self._accept("EQUALS"):
             init = self._parse_initializer()
